@@ -112,14 +112,34 @@ def relayout(np, a, lay):
     return np.ascontiguousarray(a)
 
 
+def grow_dense(ttb, np, T, hist):
+    """the same dense tensor reached through a HISTORY of public operations that leaves `data` in another memory layout: the tensor starts
+    as its leading block (one less along every mode longer than 1) and is ENLARGED by an assignment past its bounds - hist 'entry': the
+    last entry alone (tensor.__setitem__ with a subscript), 'block': the whole array (sub-tensor assignment) - which rebuilds `data` with
+    np.zeros(newshape) (C-ordered); the remaining entries are then written in bounds.  None / nothing to grow: T itself."""
+    shp = tuple(int(d) for d in T.shape)
+    if not hist or not shp or max(shp) < 2:
+        return T
+    full = np.array(T.data, order="F", copy=True)
+    X = ttb.tensor(np.array(full[tuple(slice(0, max(1, d - 1)) for d in shp)], order="F", copy=True))
+    whole = tuple(slice(0, d) for d in shp)
+    if hist == "entry":
+        last = tuple(d - 1 for d in shp)
+        X[last] = full[last]
+    X[whole] = full
+    if tuple(int(d) for d in X.shape) != shp or not np.array_equal(X.data, full):
+        raise RuntimeError("harness: growth history did not reproduce the operand")
+    return X
+
+
 def mk_obj(ttb, np, x):
-    """pyttb object of an operand literal.  Optional keys: sparse `origin` ('shape_only': sptensor(shape=...) for an operand without
+    """pyttb object of an operand literal.  Optional keys: dense `hist` / Tucker `corehist` ('entry' | 'block': see grow_dense); sparse `origin` ('shape_only': sptensor(shape=...) for an operand without
     stored entry; 'cancel': the operand arises from a computation, (S + T) - T with the auxiliary sparse tensor x['aux']);
     Kruskal / Tucker `lay`: after construction the factor matrices are re-assigned in the given memory layout (as a user may do, or as
     normalize / arrange leave them): list of layout codes, one per factor."""
     r = x["rep"]
     if r == "dense":
-        return tgen.mk_tensor(ttb, np, x["shape"], x["data"])
+        return grow_dense(ttb, np, tgen.mk_tensor(ttb, np, x["shape"], x["data"]), x.get("hist"))
     if r == "sparse":
         org = x.get("origin")
         if org == "shape_only" and not x["subs"]:
@@ -138,8 +158,9 @@ def mk_obj(ttb, np, x):
             K.factor_matrices[n] = relayout(np, K.factor_matrices[n], lay)
         return K
     if r == "t":
-        core = tgen.mk_tensor(ttb, np, x["core_shape"], x["core_data"])
-        T = ttb.ttensor(core, [mat_np(np, f, c) for f, c in zip(x["factors"], x["core_shape"])], copy=True)
+        core = grow_dense(ttb, np, tgen.mk_tensor(ttb, np, x["core_shape"], x["core_data"]), x.get("corehist"))
+        # corehist: the core was enlarged by assignment before and is kept BY REFERENCE (copy=False; factors Fortran-ordered as that path demands)
+        T = ttb.ttensor(core, [np.asfortranarray(mat_np(np, f, c)) for f, c in zip(x["factors"], x["core_shape"])], copy=not x.get("corehist"))
         for n, lay in enumerate(x.get("lay") or []):
             T.factor_matrices[n] = relayout(np, T.factor_matrices[n], lay)
         return T
@@ -313,6 +334,8 @@ def rand_t(rng, shape):
     x = X_t(cs, core, [rand_matrix(rng, d, c, -1, 2) for d, c in zip(shape, cs)])
     if rng.random() < 0.5:
         x["lay"] = [rng.randrange(4) for _ in shape]
+    elif rng.random() < 0.3:
+        x["corehist"] = rng.choice(["entry", "block"])
     return x
 
 
@@ -329,6 +352,8 @@ def family(rng, shape, fill=None):
     else:
         data = tgen.rand_dense(rng, shape, fill)
     out["dense"] = X_dense(shape, data)
+    if len(shape) >= 2 and rng.random() < 0.25:      # the dense holder was enlarged by assignment: `data` is C-ordered
+        out["dense"]["hist"] = rng.choice(["entry", "block"])
     subs, vals = tgen.dense_to_sparse(shape, data, rng, rng.choice(["sorted", "reversed", "random"]))
     out["sparse"] = X_sparse(shape, subs, vals)
     return out
@@ -398,3 +423,25 @@ def rand_t_struct(rng, shape, kind, wide=False):
     if not any(core):
         core[0] = 1
     return X_t(cs, core, factors)
+
+
+def sparse_colliding(rng, shp, keep, nnz=None):
+    """a VERY sparse operand whose stored entries collide once the modes other than `keep` are summed out: at most half as many stored
+    entries as mode `keep` is long (so a vector-valued product over the other modes stays far below the 50% fill mark) and at least two
+    of them share their subscript in mode `keep` (their terms must be ADDED in the result); stored in random order"""
+    N = len(shp)
+    others = [m for m in range(N) if m != keep]
+    kmax = max(2, shp[keep] // 2)
+    k = nnz or rng.randint(2, kmax)
+    a = rng.randrange(shp[keep])
+    pool = [i for i in all_subs(shp)]
+    same = [i for i in pool if i[keep] == a]
+    if len(same) < 2:
+        return None
+    chosen = rng.sample(same, 2 if k < 3 or len(same) < 3 or rng.random() < 0.6 else 3)
+    rest = [i for i in pool if i not in chosen]
+    rng.shuffle(rest)
+    chosen += rest[:max(0, k - len(chosen))]
+    rng.shuffle(chosen)
+    vals = [rng.choice([-3, -2, -1, 1, 2, 3, 4]) for _ in chosen]
+    return X_sparse(shp, chosen, vals)
